@@ -16,6 +16,14 @@
 (* rank must be the weighted mean / two-pass variance of all samples; at   *)
 (* the C events the processed sample indices must be exactly 0..n-1, each  *)
 (* once.                                                                   *)
+(* Zero weights.  A logged weight may be exactly 0 (the harness logs a      *)
+(* weight below 1e-200 as 0: Optimizer.sample_parameters hands a zero      *)
+(* weight over as 1e-300, which no logged quantity can tell from 0).  A    *)
+(* zero-weight update is counted and leaves no other mark (UpdAcc, guarded *)
+(* branch): while a rank has weighed nothing its M2 is 0 and its mean is a *)
+(* placeholder that is not compared (nobody reads it: the combine skips    *)
+(* ranks of zero weight); so are the variance / mean such a rank posts.    *)
+(* The combined result is compared whenever one logged weight is positive. *)
 (* Runs are independent: a rejected event prints BAD and skips its tid.    *)
 (***************************************************************************)
 EXTENDS ParallelStatsOps, Json, IOUtils, TLCExt
@@ -47,32 +55,41 @@ ChkSeq(s, e)  == e.seq > s.lastseq[e.rank]
 ChkU(s, e) ==
     /\ s.sent[e.rank] = <<>>
     /\ e.i \in 0..(s.n - 1)
-    /\ RLt(RZero, e.w)
+    /\ RLe(RZero, e.w)
     /\ LET a == NewAcc(s, e) IN
          /\ e.cnt = a.count
          /\ Close(e.wc, e.S, a.wcount, e.tol)
-         /\ Close(e.mean, e.S, a.mean, e.tol)
+         /\ a.wcount # RZero => Close(e.mean, e.S, a.mean, e.tol)
          /\ Close(e.m2, e.S, a.M2, e.tol)
 ChkG(s, e) ==
     /\ s.sent[e.rank] = <<>>
     /\ LET c == Contribution(s.acc[e.rank]) IN
          /\ e.cnt = c.count
          /\ Close(e.wc, e.S, c.wcount, e.tol)
-         /\ KindOK(e.vk, e.var, e.S, e.tol, c.var)
-         /\ KindOK(e.mk, e.mean, e.S, e.tol, c.mean)
+         /\ IF c.wcount # RZero
+            THEN /\ KindOK(e.vk, e.var, e.S, e.tol, c.var)
+                 /\ KindOK(e.mk, e.mean, e.S, e.tol, c.mean)
+            ELSE /\ c.count < 2 => e.vk = "nanobj"      \* `variance` of fewer than two samples
+                 /\ c.count = 0 => e.mk = "nanobj"      \* the placeholder of a rank that never updated
 AllSent(s) == \A q \in 0..(s.nr - 1) : s.sent[q] # <<>>
 \* every exchanged value went through serialisation: the np.nan object never arrives as that object
 ChkSer(s, e) == /\ AllSent(s)
                 /\ Len(e.rk) = s.nr
-                /\ \A q \in 0..(s.nr - 1) : e.rk[q + 1] = s.sent[q][1].var[1]
+                /\ \A q \in 0..(s.nr - 1) :
+                      IF s.sent[q][1].wcount = RZero /\ s.sent[q][1].count >= 2
+                      THEN e.rk[q + 1] # "nanobj"       \* 0/0 or a number (shifted weights): skipped by the combine
+                      ELSE e.rk[q + 1] = s.sent[q][1].var[1]
 ChkOnce(s, e) == /\ Len(s.seen) = s.n
                  /\ \A i \in 0..(s.n - 1) : Cardinality({k \in 1..Len(s.seen) : s.seen[k] = i}) = 1
 \* round-robin split of a list of n entries over nr ranks: rank r holds ceil((n - r) / nr) of them
 ChkBalance(s, e) == e.rr = 1 => \A q \in 0..(s.nr - 1) : s.nproc[q] = Len(Slice(q, s.nr, s.n))
+\* (n >= 2 and no positive weight: 0/0, nothing is stated)
 ChkMean(s, e) == LET x == Expected(s) IN
-                 IF s.n >= 2 THEN KindOK(e.mk, e.mean, e.S, e.tol, x.mean) ELSE e.mk = "none"
+                 IF s.n < 2 THEN e.mk = "none"
+                 ELSE Defined(s.smp) => KindOK(e.mk, e.mean, e.S, e.tol, x.mean)
 ChkVar(s, e)  == LET x == Expected(s) IN
-                 IF s.n >= 2 THEN KindOK(e.vk, e.var, e.S, e.tol, x.var) ELSE e.vk \in {"nan", "nanobj"}
+                 IF s.n < 2 THEN e.vk \in {"nan", "nanobj"}
+                 ELSE Defined(s.smp) => KindOK(e.vk, e.var, e.S, e.tol, x.var)
 
 Why(s, e) ==
     IF ~ChkRank(s, e) THEN "rank"
